@@ -8,7 +8,8 @@ import json
 import agentlib as A
 
 RX = [(r'dtn://far/.*', 'forward'), (r'ipn:9\..*', 'forward')]
-TX = [(r'dtn://far/small.*', 120), (r'dtn://far/.*', None), (r'ipn:9\..*', None), (r'dtn://rpt/.*', None),
+# no MTU on the transmit routes: fragment creation is C05's subject (and a parameter of this model)
+TX = [(r'dtn://far/.*', None), (r'ipn:9\..*', None), (r'dtn://rpt/.*', None),
       (r'dtn://node/.*', None)]
 SRCS = [A.dtn('//src/'), {'ipn': [4, 1]}, A.dtn('//other/app')]
 DESTS = [A.dtn('//far/x'), A.dtn('//far/y/z'), {'ipn': [9, 3]}, A.dtn('//far/small')]
@@ -380,6 +381,9 @@ def run(chk):
         'no BPSec configuration (the TX BPSec steps do nothing)',
     ]
     rng = chk.rng
+    corpus = [{'items': r['replay']['items']} for r in A.corpus('C11') if 'odd-record' not in r['_file']]
+    if corpus:
+        run_cases(chk, corpus)
     cases = [mk_case([w()], now0=W_NOW - 3) for w in (w_d10, w_d11, w_life0, w_dupprev, w_dupage, w_adminnc)]
     n = 700 if chk.tier == 'quick' else 30000
     seq = 0
